@@ -118,7 +118,7 @@ UNITS['c17'] = {
     'mutants': [
         ('refs_report_every_variable', 'if definition == core_ref_of(var.node()).definition().unwrap() {', 'if true {', ['C17.find_references']),
         ('refs_report_the_variable_node', 'node_location(workspace, var.identifier().node())?', 'node_location(workspace, var.node())?', ['C17.find_references']),
-        ('definition_of_declaration_is_its_parent', 'Some(Definition::External(External::new(decl.node())))', 'Some(Definition::External(External::new(parent)))', ['C17.find_definition']),
+        ('definition_of_declaration_is_its_identifier', 'Some(Definition::External(External::new(decl.node())))', 'Some(Definition::External(External::new(ident.node())))', ['C17.find_definition']),
         ('definition_grandparent_off_by_one', 'ident.node().ancestors().nth(1).unwrap()', 'ident.node().ancestors().nth(2).unwrap()', ['C17.find_definition']),
         ('goto_returns_the_use', 'let definition = ext.node(folder.modules().unwrap());', 'let definition = v.node();', ['C17.go_to_definition']),
         ('location_uses_start_only', 'let range = utf8_range_to_position(&text, span.range());', 'let range = utf8_range_to_position(&text, span.range().start..span.range().start);', ['C17.node_location']),
